@@ -3,6 +3,7 @@
 package harness
 
 import (
+	"math"
 	"sort"
 	"strings"
 	"testing"
@@ -11,13 +12,19 @@ import (
 	chain "github.com/comdex-official/comdex/app"
 	"github.com/comdex-official/comdex/app/wasm/bindings"
 	assettypes "github.com/comdex-official/comdex/x/asset/types"
+	auction "github.com/comdex-official/comdex/x/auction"
+	auctiontypes "github.com/comdex-official/comdex/x/auction/types"
 	auctionsV2 "github.com/comdex-official/comdex/x/auctionsV2"
 	auctionsV2types "github.com/comdex-official/comdex/x/auctionsV2/types"
+	collectortypes "github.com/comdex-official/comdex/x/collector/types"
+	esmtypes "github.com/comdex-official/comdex/x/esm/types"
+	liquidationsV2 "github.com/comdex-official/comdex/x/liquidationsV2"
 	liqtypes "github.com/comdex-official/comdex/x/liquidationsV2/types"
 	lockertypes "github.com/comdex-official/comdex/x/locker/types"
 	markettypes "github.com/comdex-official/comdex/x/market/types"
 	tokenminttypes "github.com/comdex-official/comdex/x/tokenmint/types"
 	vaulttypes "github.com/comdex-official/comdex/x/vault/types"
+	abci "github.com/cometbft/cometbft/abci/types"
 	tmproto "github.com/cometbft/cometbft/proto/tendermint/types"
 	sdk "github.com/cosmos/cosmos-sdk/types"
 	authtypes "github.com/cosmos/cosmos-sdk/x/auth/types"
@@ -157,7 +164,7 @@ func (e *c13Env) state(ctx sdk.Context) string {
 	sort.Slice(lockers, func(i, j int) bool { return lockers[i].LockerId < lockers[j].LockerId })
 	var ls []string
 	for _, l := range lockers {
-		ls = append(ls, u(l.LockerId)+":"+u(uint64(e.ownerIdx(l.Depositor)))+":"+u(l.AppId)+":"+u(l.AssetDepositId)+":"+l.NetBalance.String()+":"+l.ReturnsAccumulated.String())
+		ls = append(ls, u(l.LockerId)+":"+u(uint64(e.ownerIdx(l.Depositor)))+":"+u(l.AppId)+":"+u(l.AssetDepositId)+":"+l.NetBalance.String()+":"+l.ReturnsAccumulated.String()+":"+i64(l.BlockHeight)+":"+i64(l.BlockTime.Unix()))
 	}
 	lks := app.LockerKeeper.GetAllLockerLookupTable(ctx)
 	sort.Slice(lks, func(i, j int) bool {
@@ -195,7 +202,327 @@ func (e *c13Env) state(ctx sdk.Context) string {
 			}
 		}
 	}
-	return "L=" + strings.Join(ls, ";") + "|K=" + strings.Join(ks, ";") + "|F=" + strings.Join(fs, ";") + "|B=" + strings.Join(bs, ";")
+	// reward trackers (key: locker id, app), collector lookup table, internal-reward whitelist
+	trs := app.Rewardskeeper.GetAllLockerRewardTracker(ctx)
+	sort.Slice(trs, func(i, j int) bool {
+		if trs[i].LockerId != trs[j].LockerId {
+			return trs[i].LockerId < trs[j].LockerId
+		}
+		return trs[i].AppMappingId < trs[j].AppMappingId
+	})
+	var ts []string
+	for _, t := range trs {
+		if !t.RewardsAccumulated.IsZero() {
+			ts = append(ts, u(t.LockerId)+":"+u(t.AppMappingId)+":"+t.RewardsAccumulated.BigInt().String())
+		}
+	}
+	var cs, ws []string
+	for appID := uint64(0); appID <= 3; appID++ {
+		for asset := uint64(0); asset <= 5; asset++ {
+			if c, found := app.CollectorKeeper.GetCollectorLookupTable(ctx, appID, asset); found {
+				cs = append(cs, c13CL(c.AppId, c.CollectorAssetId, c.LockerSavingRate, c.BlockHeight, c.BlockTime.Unix(), c.SurplusThreshold, c.DebtThreshold, c.LotSize, c.DebtLotSize))
+			}
+			if _, found := app.Rewardskeeper.GetReward(ctx, appID, asset); found {
+				ws = append(ws, u(appID)+":"+u(asset))
+			}
+		}
+	}
+	// auction mapping, emergency switches, English-auction activation
+	var as []string
+	for _, k := range e.amapKeys(ctx) {
+		m, _ := app.CollectorKeeper.GetAuctionMappingForApp(ctx, k[0], k[1])
+		as = append(as, u(k[0])+":"+u(k[1])+":"+c13B(m.IsSurplusAuction)+":"+c13B(m.IsDebtAuction)+":"+c13B(m.IsAuctionActive))
+	}
+	var es, xs, gs []uint64
+	for appID := uint64(0); appID <= 3; appID++ {
+		if st, found := app.EsmKeeper.GetESMStatus(ctx, appID); found && st.Status {
+			es = append(es, appID)
+		}
+		if kl, _ := app.EsmKeeper.GetKillSwitchData(ctx, appID); kl.BreakerEnable {
+			xs = append(xs, appID)
+		}
+		if lw, found := app.NewliqKeeper.GetLiquidationWhiteListing(ctx, appID); found && lw.IsEnglishActivated {
+			gs = append(gs, appID)
+		}
+	}
+	return "L=" + strings.Join(ls, ";") + "|K=" + strings.Join(ks, ";") + "|F=" + strings.Join(fs, ";") + "|B=" + strings.Join(bs, ";") +
+		"|T=" + strings.Join(ts, ";") + "|C=" + strings.Join(cs, ";") + "|W=" + strings.Join(ws, ";") +
+		"|A=" + strings.Join(as, ";") + "|E=" + joinU(es) + "|X=" + joinU(xs) + "|G=" + joinU(gs)
+}
+
+func c13B(b bool) string {
+	if b {
+		return "true"
+	}
+	return "false"
+}
+
+// amapKeys: the auction-mapping entries in store (iteration) order — the order in which the begin-blockers visit them.
+func (e *c13Env) amapKeys(ctx sdk.Context) [][2]uint64 {
+	ms, _ := e.app.CollectorKeeper.GetAllAuctionMappingForApp(ctx)
+	var ks [][2]uint64
+	for _, m := range ms {
+		ks = append(ks, [2]uint64{m.AppId, m.AssetId})
+	}
+	return ks
+}
+
+func (e *c13Env) amapKeysField(ctx sdk.Context) string {
+	var ss []string
+	for _, k := range e.amapKeys(ctx) {
+		ss = append(ss, u(k[0])+":"+u(k[1]))
+	}
+	return strings.Join(ss, ";")
+}
+
+// configuration changes (governance / emergency), each one trace line
+func (e *c13Env) cfgSwitch(ctx sdk.Context, kind string, appID uint64, on bool) {
+	switch kind {
+	case "esm":
+		e.app.EsmKeeper.SetESMStatus(ctx, esmtypes.ESMStatus{AppId: appID, Status: on})
+	case "kill":
+		if err := e.app.EsmKeeper.SetKillSwitchData(ctx, esmtypes.KillSwitchParams{AppId: appID, BreakerEnable: on}); err != nil {
+			e.t.Fatal(err)
+		}
+	case "english":
+		e.app.NewliqKeeper.SetLiquidationWhiteListing(ctx, liqtypes.LiquidationWhiteListing{AppId: appID, Initiator: true, IsDutchActivated: true,
+			DutchAuctionParam:  &liqtypes.DutchAuctionParam{Premium: sdk.MustNewDecFromStr("1.2"), Discount: sdk.MustNewDecFromStr("0.7"), DecrementFactor: sdk.NewInt(1)},
+			IsEnglishActivated: on, EnglishAuctionParam: &liqtypes.EnglishAuctionParam{DecrementFactor: sdk.NewInt(1)}, KeeeperIncentive: sdk.MustNewDecFromStr("0.1")})
+	}
+	e.tr.Count("config:" + kind)
+	e.tr.Line("lk.config", kind, u(appID), c13B(on), "ok", e.state(ctx))
+}
+
+func (e *c13Env) cfgAmap(ctx sdk.Context, appID, asset uint64, surplus, debt, active bool) {
+	out := e.atomic(ctx, func(cc sdk.Context) error {
+		return e.app.CollectorKeeper.SetAuctionMappingForApp(cc, collectortypes.AppAssetIdToAuctionLookupTable{AppId: appID, AssetId: asset,
+			IsSurplusAuction: surplus, IsDebtAuction: debt, IsAuctionActive: active, AssetOutPrice: 1000000})
+	})
+	e.tr.Count("config:amap:" + out)
+	if out == "ok" {
+		e.tr.Line("lk.config", "amap", u(appID), u(asset), c13B(surplus), c13B(debt), c13B(active), out, e.state(ctx))
+	}
+}
+
+type c13ActSnap struct {
+	active map[[2]uint64]bool
+	fee    map[[2]uint64]sdk.Int
+}
+
+func (e *c13Env) actSnapshot(ctx sdk.Context) c13ActSnap {
+	sn := c13ActSnap{active: map[[2]uint64]bool{}, fee: map[[2]uint64]sdk.Int{}}
+	for _, k := range e.amapKeys(ctx) {
+		m, _ := e.app.CollectorKeeper.GetAuctionMappingForApp(ctx, k[0], k[1])
+		sn.active[k] = m.IsAuctionActive
+		sn.fee[k] = e.netFee(ctx, k[0], k[1])
+	}
+	return sn
+}
+
+// actCount records which branches of the start decision the real begin-blocker took (statistics only).
+func (e *c13Env) actCount(ctx sdk.Context, before c13ActSnap, gen string) {
+	for _, k := range e.amapKeys(ctx) {
+		m, _ := e.app.CollectorKeeper.GetAuctionMappingForApp(ctx, k[0], k[1])
+		moved := !e.netFee(ctx, k[0], k[1]).Equal(before.fee[k])
+		switch {
+		case m.IsAuctionActive && !before.active[k] && m.IsSurplusAuction:
+			e.tr.Count("act:" + gen + ":surplus-started")
+		case m.IsAuctionActive && !before.active[k] && m.IsDebtAuction:
+			e.tr.Count("act:" + gen + ":debt-started")
+		case moved:
+			e.tr.Count("act:" + gen + ":lot-taken-without-auction")
+		default:
+			e.tr.Count("act:" + gen + ":no-start")
+		}
+	}
+}
+
+// activationSequence: thresholds against net fees. Net fees are steered to the two boundaries (surplus threshold + lot, debt
+// threshold − lot) and their neighbours, then the REAL begin-blockers decide: x/auction.BeginBlocker (first generation; note that
+// x/auction/module.go:168 has its call commented out — the function is exercised here as it stands) and
+// liquidationsV2.BeginBlocker (second generation, live).
+func (e *c13Env) activationSequence(base sdk.Context, nops int) {
+	ctx, _ := base.CacheContext()
+	app, tr, rng := e.app, e.tr, e.rng
+	ck := app.CollectorKeeper
+	keys := [][2]uint64{{1, 2}, {1, 4}, {2, 2}, {2, 4}}
+	for _, k := range keys {
+		sthr := int64(1000 * (1 + rng.Intn(20000)))
+		lot := int64(1 + rng.Intn(3000000))
+		dthr := int64(rng.Intn(int(sthr)))
+		if err := ck.WasmSetCollectorLookupTable(ctx, &bindings.MsgSetCollectorLookupTable{AppID: k[0], CollectorAssetID: k[1],
+			SecondaryAssetID: c13AssetHarbor, SurplusThreshold: sdk.NewInt(sthr), DebtThreshold: sdk.NewInt(dthr), LockerSavingRate: c13Rate(rng),
+			LotSize: sdk.NewInt(lot), BidFactor: sdk.MustNewDecFromStr("0.01"), DebtLotSize: sdk.NewInt(int64(1 + rng.Intn(5000000)))}); err != nil {
+			e.t.Fatal(err)
+		}
+	}
+	for _, a := range []uint64{1, 2} {
+		app.AuctionKeeper.SetAuctionParams(ctx, auctiontypes.AuctionParams{AppId: a, AuctionDurationSeconds: 4000000000, Buffer: sdk.MustNewDecFromStr("1.2"),
+			Cusp: sdk.MustNewDecFromStr("0.6"), Step: sdk.NewInt(1), PriceFunctionType: 1, SurplusId: 1, DebtId: 2, DutchId: 3, BidDurationSeconds: 4000000000})
+	}
+	app.NewaucKeeper.SetAuctionParams(ctx, auctionsV2types.AuctionParams{AuctionDurationSeconds: 4000000000, Step: sdk.MustNewDecFromStr("0.1"),
+		WithdrawalFee: sdk.ZeroDec(), ClosingFee: sdk.ZeroDec(), MinUsdValueLeft: 100000, BidFactor: sdk.MustNewDecFromStr("0.1"),
+		LiquidationPenalty: sdk.MustNewDecFromStr("0.1"), AuctionBonus: sdk.ZeroDec()})
+	tr.Line("lk.begin", "assets=1,2,3,4", "apps=1,2", e.collkField(ctx))
+	tr.Count("seq:activation")
+	for _, a := range []uint64{1, 2} {
+		e.cfgSwitch(ctx, "english", a, rng.Chance(80))
+	}
+	for _, k := range keys {
+		if rng.Chance(85) {
+			sp := rng.Chance(50)
+			e.cfgAmap(ctx, k[0], k[1], sp, !sp && rng.Chance(85), false)
+		}
+	}
+	// steer the recorded net fees of a key to `target` with real collector entry points
+	steer := func(k [2]uint64, target sdk.Int) {
+		if target.IsNegative() {
+			target = sdk.ZeroInt()
+		}
+		cur := e.netFee(ctx, k[0], k[1])
+		d := target.Sub(cur)
+		if d.IsPositive() {
+			out := e.atomic(ctx, func(cc sdk.Context) error {
+				e.mint(cc, nil, "auctionV1", k[1], d)
+				if err := app.BankKeeper.SendCoinsFromModuleToModule(cc, "auctionV1", "collectorV1", sdk.NewCoins(sdk.NewCoin(c13Denom[k[1]], d))); err != nil {
+					return err
+				}
+				return ck.SetNetFeeCollectedData(cc, k[0], k[1], d)
+			})
+			tr.Line("lk.penalty", u(k[0]), u(k[1]), d.String(), out, e.state(ctx))
+		} else if d.IsNegative() {
+			x := d.Neg()
+			out := e.atomic(ctx, func(cc sdk.Context) error {
+				return ck.WasmMsgGetSurplusFund(cc, k[0], k[1], e.users[0], sdk.NewCoin(c13Denom[k[1]], x))
+			})
+			tr.Line("lk.surplusfund", u(k[0]), u(k[1]), "0", x.String(), out, e.state(ctx))
+		}
+	}
+	for op := 0; op < nops; op++ {
+		ctx = ctx.WithBlockTime(ctx.BlockTime().Add(6 * time.Second)).WithBlockHeight(ctx.BlockHeight() + 1)
+		p := rng.Intn(100)
+		k := keys[rng.Intn(len(keys))]
+		switch {
+		case p < 35: // steer to a boundary
+			cl, _ := ck.GetCollectorLookupTable(ctx, k[0], k[1])
+			var t sdk.Int
+			switch rng.Intn(4) {
+			case 0:
+				t = cl.SurplusThreshold.Add(cl.LotSize)
+			case 1:
+				t = cl.DebtThreshold.Sub(cl.LotSize)
+			case 2:
+				t = cl.SurplusThreshold
+			default:
+				t = sdk.NewInt(int64(rng.Intn(30000000)))
+			}
+			t = t.AddRaw(int64(rng.Intn(3) - 1))
+			steer(k, t)
+			tr.Count("act:steer")
+		case p < 45:
+			m, found := ck.GetAuctionMappingForApp(ctx, k[0], k[1])
+			if found && rng.Chance(70) { // governance resets a finished auction / changes the kind
+				sp := m.IsSurplusAuction
+				if rng.Chance(25) {
+					sp = !sp
+				}
+				e.cfgAmap(ctx, k[0], k[1], sp, !sp, false)
+			} else {
+				sp := rng.Chance(50)
+				e.cfgAmap(ctx, k[0], k[1], sp, !sp, rng.Chance(20))
+			}
+		case p < 52:
+			e.cfgSwitch(ctx, []string{"esm", "kill", "english"}[rng.Intn(3)], k[0], rng.Chance(50))
+		case p < 76: // second-generation begin-blocker
+			keysField := e.amapKeysField(ctx)
+			snap := e.actSnapshot(ctx)
+			liquidationsV2.BeginBlocker(ctx, abci.RequestBeginBlock{}, app.NewliqKeeper)
+			e.actCount(ctx, snap, "gen2")
+			tr.Count("act:gen2")
+			tr.Line("lk.activate", "2", keysField, "ok", e.state(ctx))
+		default: // first-generation begin-blocker
+			// not modelled: the emergency wind-down of RUNNING first-generation auctions (SurplusAuctionClose / DebtAuctionClose with
+			// the ESM status set close every auction of the app); such blocks are left to the second-generation sweep
+			windDown := false
+			for _, mk := range e.amapKeys(ctx) {
+				m, _ := ck.GetAuctionMappingForApp(ctx, mk[0], mk[1])
+				if st, found := app.EsmKeeper.GetESMStatus(ctx, mk[0]); found && st.Status && m.IsAuctionActive {
+					windDown = true
+				}
+			}
+			if windDown {
+				tr.Count("act:gen1-skipped-esm-wind-down")
+				continue
+			}
+			keysField := e.amapKeysField(ctx)
+			snap := e.actSnapshot(ctx)
+			auction.BeginBlocker(ctx, app.AuctionKeeper, &app.AssetKeeper, &app.CollectorKeeper, &app.EsmKeeper)
+			e.actCount(ctx, snap, "gen1")
+			tr.Count("act:gen1")
+			tr.Line("lk.activate", "1", keysField, "ok", e.state(ctx))
+		}
+	}
+	ms, _ := ck.GetAllAuctionMappingForApp(ctx)
+	for _, m := range ms {
+		if m.IsAuctionActive {
+			if m.IsSurplusAuction {
+				tr.Count("act:surplus-active-at-end")
+			} else {
+				tr.Count("act:debt-active-at-end")
+			}
+		}
+	}
+}
+
+func c13CL(appID, asset uint64, lsr sdk.Dec, bh, bt int64, sthr, dthr, lot, dlot sdk.Int) string {
+	return u(appID) + ":" + u(asset) + ":" + lsr.BigInt().String() + ":" + i64(bh) + ":" + i64(bt) + ":" + sthr.String() + ":" + dthr.String() + ":" + lot.String() + ":" + dlot.String()
+}
+
+// collkField prints the collector lookup table of the sequence for the lk.begin line.
+func (e *c13Env) collkField(ctx sdk.Context) string {
+	st := e.state(ctx)
+	i := strings.Index(st, "|C=")
+	j := strings.Index(st, "|W=")
+	return "collk=" + st[i+3:j]
+}
+
+func c13T(ctx sdk.Context) (string, string) { return i64(ctx.BlockTime().Unix()), i64(ctx.BlockHeight()) }
+
+const c13Year = 31557600
+
+// powField mirrors the two lines of CalculationOfRewards that produce the arguments of its one math.Pow call and performs that
+// call: `xbits:ybits:pbits`. The Lean model recomputes both arguments from ITS state (rate, time stamps) and the driver reports a
+// DIFF when they differ; the result is the only input of the model's reward computation.
+func c13Pow(lsr sdk.Dec, secs int64) string {
+	if secs < 0 {
+		return "-"
+	}
+	x := sdk.OneDec().Add(lsr).MustFloat64()
+	y := sdk.NewDec(secs).QuoInt64(c13Year).MustFloat64()
+	p := math.Pow(x, y)
+	return u(math.Float64bits(x)) + ":" + u(math.Float64bits(y)) + ":" + u(math.Float64bits(p))
+}
+
+// powField: the pow call CalculateLockerRewards is going to make for this locker (rate of the collector entry; time since the
+// locker's stamp, or the collector entry's stamp when the locker's block height is 0).
+func (e *c13Env) powField(ctx sdk.Context, appID, assetID, lockerID uint64, lsrOverride *sdk.Dec) string {
+	l, found := e.app.LockerKeeper.GetLocker(ctx, lockerID)
+	if !found {
+		return "-"
+	}
+	cl, found := e.app.CollectorKeeper.GetCollectorLookupTable(ctx, appID, assetID)
+	if !found {
+		return "-"
+	}
+	rate := cl.LockerSavingRate
+	if lsrOverride != nil {
+		rate = *lsrOverride
+	}
+	since := l.BlockTime.Unix()
+	if l.BlockHeight == 0 {
+		since = cl.BlockTime.Unix()
+	}
+	return c13Pow(rate, ctx.BlockTime().Unix()-since)
 }
 
 // deliver re-enacts baseapp.runMsgs for one message.
@@ -339,18 +666,13 @@ func (e *c13Env) v2Sequence(base sdk.Context, mode string, lot, debtLot, funded 
 	ctx, _ := base.CacheContext()
 	app, tr := e.app, e.tr
 	e.setCollectorLookup(ctx, 1, c13AssetCmst, sdk.MustNewDecFromStr("0.1"), lot, debtLot)
-	if err := app.CollectorKeeper.WasmSetAuctionMappingForApp(ctx, &bindings.MsgSetAuctionMappingForApp{AppID: 1, AssetIDs: c13AssetCmst,
-		IsSurplusAuctions: mode == "surplus", IsDebtAuctions: mode == "debt", AssetOutPrices: 1000000}); err != nil {
-		e.t.Fatal(err)
-	}
-	app.NewliqKeeper.SetLiquidationWhiteListing(ctx, liqtypes.LiquidationWhiteListing{AppId: 1, Initiator: true, IsDutchActivated: true,
-		DutchAuctionParam:  &liqtypes.DutchAuctionParam{Premium: sdk.MustNewDecFromStr("1.2"), Discount: sdk.MustNewDecFromStr("0.7"), DecrementFactor: sdk.NewInt(1)},
-		IsEnglishActivated: true, EnglishAuctionParam: &liqtypes.EnglishAuctionParam{DecrementFactor: sdk.NewInt(1)}, KeeeperIncentive: sdk.MustNewDecFromStr("0.1")})
 	app.NewaucKeeper.SetAuctionParams(ctx, auctionsV2types.AuctionParams{AuctionDurationSeconds: 3600, Step: sdk.MustNewDecFromStr("0.1"),
 		WithdrawalFee: sdk.ZeroDec(), ClosingFee: sdk.ZeroDec(), MinUsdValueLeft: 100000, BidFactor: sdk.MustNewDecFromStr("0.1"),
 		LiquidationPenalty: sdk.MustNewDecFromStr("0.1"), AuctionBonus: sdk.ZeroDec()})
-	tr.Line("lk.begin", "assets=1,2,3,4", "apps=1,2", c13CollkField([][2]uint64{{1, 2}}))
+	tr.Line("lk.begin", "assets=1,2,3,4", "apps=1,2", e.collkField(ctx))
 	tr.Count("seq:v2" + mode)
+	e.cfgSwitch(ctx, "english", 1, true)
+	e.cfgAmap(ctx, 1, c13AssetCmst, mode == "surplus", mode == "debt", false)
 	bidder := e.users[0]
 	e.mint(ctx, bidder, "", c13AssetHarbor, sdk.NewInt(1e12))
 	// the collector really receives what its books record: a liquidation penalty paid in by the auction module
@@ -369,16 +691,12 @@ func (e *c13Env) v2Sequence(base sdk.Context, mode string, lot, debtLot, funded 
 	tr.Line("lk.fund", "0", u(c13AssetCmst), fund.String(), "ok", e.state(ctx))
 
 	// activator: liquidationsV2.Liquidate → CheckStatsForSurplusAndDebt
-	before := e.netFee(ctx, 1, c13AssetCmst)
-	out = e.atomic(ctx, func(cc sdk.Context) error { return app.NewliqKeeper.Liquidate(cc) })
-	lvs := app.NewliqKeeper.GetLockedVaults(ctx)
-	if mode == "surplus" && out == "ok" && len(lvs) == 1 {
-		tr.Line("lk.getamount", "1", u(c13AssetCmst), lvs[0].CollateralToken.Amount.String(), out, e.state(ctx))
-		tr.Count("v2:surplus-started")
-	} else {
-		tr.Line("lk.sync", e.state(ctx))
+	keysField := e.amapKeysField(ctx)
+	liquidationsV2.BeginBlocker(ctx, abci.RequestBeginBlock{}, app.NewliqKeeper)
+	tr.Line("lk.activate", "2", keysField, "ok", e.state(ctx))
+	if len(app.NewliqKeeper.GetLockedVaults(ctx)) == 1 {
+		tr.Count("v2:" + mode + "-started")
 	}
-	_ = before
 	aucs := app.NewaucKeeper.GetAuctions(ctx)
 	if len(aucs) != 1 {
 		tr.Count("v2:no-auction")
@@ -441,7 +759,7 @@ func (e *c13Env) mainSequence(base sdk.Context, nops int) {
 			collk = append(collk, k)
 		}
 	}
-	tr.Line("lk.begin", "assets=1,2,3,4", "apps=1,2", c13CollkField(collk))
+	tr.Line("lk.begin", "assets=1,2,3,4", "apps=1,2", e.collkField(ctx))
 	tr.Count("seq:main")
 	apps := []uint64{1, 2}
 	lassets := []uint64{c13AssetCmst, c13AssetAtom}
@@ -458,8 +776,10 @@ func (e *c13Env) mainSequence(base sdk.Context, nops int) {
 		})
 		tr.Count("whitelist:" + out)
 		tr.Line("lk.whitelist", u(appID), u(asset), out, e.state(ctx))
-		if out == "ok" && rng.Chance(85) {
-			_ = app.Rewardskeeper.WhitelistAssetForInternalRewards(ctx, appID, asset)
+		if rng.Chance(85) {
+			out := e.atomic(ctx, func(cc sdk.Context) error { return app.Rewardskeeper.WhitelistAssetForInternalRewards(cc, appID, asset) })
+			tr.Count("wlreward:" + out)
+			tr.Line("lk.wlreward", u(appID), u(asset), out, e.state(ctx))
 		}
 	}
 	for _, a := range apps {
@@ -520,9 +840,11 @@ func (e *c13Env) mainSequence(base sdk.Context, nops int) {
 			ui := rng.Intn(len(e.users))
 			fund(ui, lassets[rng.Intn(2)], sdk.NewIntFromUint64(1+rng.U64()>>uint(34+rng.Intn(26))))
 			tr.Count("op:fund")
-		case p < 9:
+		case p < 8:
 			a, as := pickKey()
 			whitelist(a, as)
+		case p < 9: // emergency shutdown / kill switch of an app (first guards of create, deposit, whitelist)
+			e.cfgSwitch(ctx, []string{"esm", "kill"}[rng.Intn(2)], apps[rng.Intn(2)], rng.Chance(45))
 		case p < 21: // create
 			ui := rng.Intn(len(e.users))
 			a, as := pickKey()
@@ -543,7 +865,8 @@ func (e *c13Env) mainSequence(base sdk.Context, nops int) {
 			msg := lockertypes.NewMsgCreateLockerRequest(e.users[ui].String(), amt, as, a)
 			out := e.deliver(ctx, msg)
 			tr.Count("create:" + out)
-			tr.Line("lk.create", u(uint64(ui)), u(a), u(as), amt.String(), out, e.state(ctx))
+			t1, t2 := c13T(ctx)
+			tr.Line("lk.create", t1, t2, u(uint64(ui)), u(a), u(as), amt.String(), out, e.state(ctx))
 		case p < 36: // deposit
 			l, ok := pickLocker()
 			if !ok {
@@ -567,6 +890,7 @@ func (e *c13Env) mainSequence(base sdk.Context, nops int) {
 			bal := e.balOf(ctx, e.users[ui], as)
 			amt := e.boundary(bal)
 			rw := e.predictRw(ctx, a, as, id, nil, false)
+			pw := e.powField(ctx, a, as, id, nil)
 			t0 := e.totalRewards(ctx, a, as)
 			out := e.deliver(ctx, lockertypes.NewMsgDepositAssetRequest(e.users[ui].String(), id, amt, as, a))
 			obs := "-"
@@ -575,7 +899,8 @@ func (e *c13Env) mainSequence(base sdk.Context, nops int) {
 			}
 			tr.Count("deposit:" + out)
 			tr.Count("rw:" + strings.SplitN(rw, ":", 2)[0])
-			tr.Line("lk.deposit", u(uint64(ui)), u(a), u(as), u(id), amt.String(), rw, obs, out, e.state(ctx))
+			t1, t2 := c13T(ctx)
+			tr.Line("lk.deposit", t1, t2, u(uint64(ui)), u(a), u(as), u(id), amt.String(), pw, obs, out, e.state(ctx))
 		case p < 51: // withdraw
 			l, ok := pickLocker()
 			if !ok {
@@ -595,6 +920,7 @@ func (e *c13Env) mainSequence(base sdk.Context, nops int) {
 			}
 			amt := e.boundary(l.NetBalance)
 			rw := e.predictRw(ctx, a, as, id, nil, false)
+			pw := e.powField(ctx, a, as, id, nil)
 			t0 := e.totalRewards(ctx, a, as)
 			out := e.deliver(ctx, lockertypes.NewMsgWithdrawAssetRequest(e.users[ui].String(), id, amt, as, a))
 			obs := "-"
@@ -603,7 +929,8 @@ func (e *c13Env) mainSequence(base sdk.Context, nops int) {
 			}
 			tr.Count("withdraw:" + out)
 			tr.Count("rw:" + strings.SplitN(rw, ":", 2)[0])
-			tr.Line("lk.withdraw", u(uint64(ui)), u(a), u(as), u(id), amt.String(), rw, obs, out, e.state(ctx))
+			t1, t2 := c13T(ctx)
+			tr.Line("lk.withdraw", t1, t2, u(uint64(ui)), u(a), u(as), u(id), amt.String(), pw, obs, out, e.state(ctx))
 		case p < 57: // close
 			l, ok := pickLocker()
 			if !ok {
@@ -620,6 +947,7 @@ func (e *c13Env) mainSequence(base sdk.Context, nops int) {
 				id = 0
 			}
 			rw := e.predictRw(ctx, a, as, id, nil, false)
+			pw := e.powField(ctx, a, as, id, nil)
 			t0 := e.totalRewards(ctx, a, as)
 			out := e.deliver(ctx, lockertypes.NewMsgCloseLockerRequest(e.users[ui].String(), a, as, id))
 			obs := "-"
@@ -628,7 +956,8 @@ func (e *c13Env) mainSequence(base sdk.Context, nops int) {
 			}
 			tr.Count("close:" + out)
 			tr.Count("rw:" + strings.SplitN(rw, ":", 2)[0])
-			tr.Line("lk.close", u(uint64(ui)), u(a), u(as), u(id), rw, obs, out, e.state(ctx))
+			t1, t2 := c13T(ctx)
+			tr.Line("lk.close", t1, t2, u(uint64(ui)), u(a), u(as), u(id), pw, obs, out, e.state(ctx))
 		case p < 64: // reward calculation message (anyone may send it)
 			l, ok := pickLocker()
 			if !ok {
@@ -642,6 +971,7 @@ func (e *c13Env) mainSequence(base sdk.Context, nops int) {
 			if a == l.AppId {
 				rw = e.predictRw(ctx, a, l.AssetDepositId, id, nil, false)
 			}
+			pw := e.powField(ctx, a, l.AssetDepositId, id, nil)
 			t0 := e.totalRewards(ctx, a, l.AssetDepositId)
 			out := e.deliver(ctx, lockertypes.NewMsgLockerRewardCalcRequest(e.users[rng.Intn(len(e.users))].String(), a, id))
 			obs := "-"
@@ -650,7 +980,8 @@ func (e *c13Env) mainSequence(base sdk.Context, nops int) {
 			}
 			tr.Count("rewardcalc:" + out)
 			tr.Count("rw:" + strings.SplitN(rw, ":", 2)[0])
-			tr.Line("lk.rewardcalc", u(a), u(id), rw, obs, out, e.state(ctx))
+			t1, t2 := c13T(ctx)
+			tr.Line("lk.rewardcalc", t1, t2, u(a), u(id), pw, obs, out, e.state(ctx))
 		case p < 68: // saving-rate change (governance contract): LockerIterateRewards
 			if len(collk) == 0 {
 				continue
@@ -661,23 +992,32 @@ func (e *c13Env) mainSequence(base sdk.Context, nops int) {
 			_, rfound := app.Rewardskeeper.GetReward(ctx, k[0], k[1])
 			iter := rfound && (newRate.IsZero() || (cl.LockerSavingRate.IsPositive() && newRate.IsPositive()))
 			var rws []string
-			if iter {
+			{
 				lk, _ := app.LockerKeeper.GetLockerLookupTable(ctx, k[0], k[1])
 				old := cl.LockerSavingRate
 				for _, id := range lk.LockerIds {
-					rws = append(rws, e.predictRw(ctx, k[0], k[1], id, &old, true))
+					rws = append(rws, e.powField(ctx, k[0], k[1], id, &old))
 				}
+			}
+			newCl := cl
+			if rng.Chance(30) { // thresholds and lot sizes may change with the same message
+				newCl.SurplusThreshold = sdk.NewInt(int64(1000000 + rng.Intn(20000000)))
+				newCl.DebtThreshold = sdk.NewInt(int64(rng.Intn(6000000)))
+				newCl.LotSize = sdk.NewInt(int64(1000 + rng.Intn(500000)))
+				newCl.DebtLotSize = sdk.NewInt(int64(1000 + rng.Intn(5000000)))
 			}
 			out := e.atomic(ctx, func(cc sdk.Context) error {
 				return ck.WasmUpdateCollectorLookupTable(cc, &bindings.MsgUpdateCollectorLookupTable{AppID: k[0], AssetID: k[1],
-					DebtThreshold: cl.DebtThreshold, SurplusThreshold: cl.SurplusThreshold, LotSize: cl.LotSize, DebtLotSize: cl.DebtLotSize,
+					DebtThreshold: newCl.DebtThreshold, SurplusThreshold: newCl.SurplusThreshold, LotSize: newCl.LotSize, DebtLotSize: newCl.DebtLotSize,
 					BidFactor: cl.BidFactor, LSR: newRate})
 			})
 			tr.Count("lsr:" + out)
 			if iter {
 				tr.Count("lsr:iterated")
 			}
-			tr.Line("lk.lsr", u(k[0]), u(k[1]), strings.Join(rws, ","), out, e.state(ctx))
+			t1, t2 := c13T(ctx)
+			tr.Line("lk.lsr", t1, t2, u(k[0]), u(k[1]), newRate.BigInt().String(), newCl.SurplusThreshold.String(), newCl.DebtThreshold.String(),
+				newCl.LotSize.String(), newCl.DebtLotSize.String(), strings.Join(rws, ","), out, e.state(ctx))
 		case p < 80: // fee inflow from a real vault message (asset 2 only)
 			b := e.borrowers[rng.Intn(len(e.borrowers))]
 			appID := apps[rng.Intn(2)]
@@ -811,6 +1151,10 @@ func TestC13(t *testing.T) {
 				dl := int64(1000 * (1 + rng.Intn(5000)))
 				e.v2Sequence(base, "debt", lot, dl, 5000000-lot-int64(rng.Intn(1000000)), dl-int64(rng.Intn(int(dl))))
 			}
+			continue
+		}
+		if s%8 == 2 || s%8 == 6 {
+			e.activationSequence(base, rng.Range(10, maxOps))
 			continue
 		}
 		e.mainSequence(base, rng.Range(10, maxOps))
